@@ -24,6 +24,7 @@ RULE = ('random gridded IOAPI files (negative origins, non-square cells, '
 RULE += (' Windows are also given as numpy integers; sources also written to disk and reopened.')
 RULE += (' A share of the gridded files is the IOAPI-class object the CAMx gridded READER (uamiv) returns for an image written by the independent codec (whole-hour steps up to 168 h, ETFLAG present, header completed by the class).')
 RULE += (' After a time window the same source object is re-dated (flags and start edited consistently) and windowed again: the second window is referenced to the new times.')
+RULE += (" Half of the IOAPI files opened from disk are written here with netCDF4 directly the way the Models-3 I/O API library writes them (netCDF classic 64-bit offset, int32 header integers, float64 grid reals, float32 VGLVLS, TFLAG first, TSTEP the record dimension), independent of the library's writers.")
 ASSUMPTIONS = [
     'time oracle = integer YYYYJJJ/HHMMSS arithmetic in the harness (not '
     'getTimes)',
@@ -107,7 +108,12 @@ def run_in(spec, res, d, h):
         res.facet('no-TFLAG-variable')
     elif spec.get('disk'):
         # the IOAPI file saved and opened again from disk
-        g = harness.to_disk(f, d, h, fmt='ioapi')
+        g = gen_ioapi.open_m3io(fs, d, h) if fs['seed'] % 2 == 0 else None
+        if g is not None:
+            # the file as the I/O API library itself writes it
+            res.facet('source:disk-m3io')
+        else:
+            g = harness.to_disk(f, d, h, fmt='ioapi')
         if g is not None:
             f = g
             res.facet('source:disk')
